@@ -72,6 +72,7 @@ type Contract struct {
 	Functional   string   // "functional NAME": the result is a function NAME(args) of the arguments (slices: content and length)
 	NoFrame      bool     // "modifies anything": top-level actor closures, no frame obligations (such a function cannot be called from a function under contract)
 	SplitRet     bool     // prove every postcondition separately per return statement
+	Impl         bool     // "impl func": body-side contract of an opaque function (key has the suffix #impl)
 	HeapClosed   bool     // "heapclosed": add the axiom "every reference stored in the entry heap is below the entry watermark" (quantified)
 	DispatchOnly []string // "dispatchonly Cxx ...": target of interface dispatch only in these modes; elsewhere call sites must exclude it
 	Safety       []string // properties under which safe.*/nofatal/nopanic obligations are generated (default: all)
@@ -136,7 +137,7 @@ type Contracts struct {
 }
 
 var clauseKeywords = map[string]bool{
-	"func": true, "extern": true, "pure": true, "ghost": true, "props": true, "requires": true, "ensures": true,
+	"func": true, "impl": true, "extern": true, "pure": true, "ghost": true, "props": true, "requires": true, "ensures": true,
 	"modifies": true, "loop": true, "invariant": true, "decreases": true, "nofatal": true, "overflow": true,
 	"let": true, "trusted": true, "returns": true, "fatal": true, "assume": true, "callback": true,
 	"lemma": true, "mode": true, "heapclosed": true, "dispatchonly": true, "sentinel": true, "iface": true, "share": true, "effectfree": true, "opaque": true, "end": true, "ghostdo": true, "ghostret": true, "atcall": true, "split": true, "safety": true, "splitreturns": true, "functional": true,
@@ -249,7 +250,7 @@ func (cs *Contracts) parseFile(p *Program, pkgPath, file, src string) error {
 	}
 	for _, rc := range raws {
 		switch rc.kw {
-		case "func", "extern", "iface", "opaque":
+		case "func", "extern", "iface", "opaque", "impl":
 			curLoop, curLemma = nil, nil
 			text := rc.text
 			c := &Contract{PkgPath: pkgPath, File: file, Line: rc.line, Loops: map[int]*LoopSpec{}}
@@ -262,8 +263,17 @@ func (cs *Contracts) parseFile(p *Program, pkgPath, file, src string) error {
 				c.Iface = true
 				c.Extern = true
 			}
+			if rc.kw == "impl" {
+				// "impl func F": a second contract for a function whose callers see an opaque (idealised) contract; it is
+				// checked against the body and never used at call sites
+				text = strings.TrimSpace(strings.TrimPrefix(text, "func "))
+				c.Impl = true
+			}
 			if err := cs.parseHeader(p, c, text); err != nil {
 				return fail(rc, "%v", err)
+			}
+			if c.Impl {
+				c.Key += "#impl"
 			}
 			if old, dup := cs.ByKey[c.Key]; dup {
 				return fail(rc, "duplicate contract for %s (also %s:%d)", c.Key, old.File, old.Line)
